@@ -41,6 +41,7 @@ type Program struct {
 	globalByObj map[types.Object]*ssa.Global
 	pkgByTypes map[*types.Package]*packages.Package
 	specFiles []string
+	missing   []*FuncContract // contracts whose function no longer exists
 }
 
 func loadProgram(repoDir string, patterns []string, overlay map[string][]byte) (*Program, error) {
@@ -185,7 +186,9 @@ func (p *Program) loadSpecs(extraDirs []string) error {
 			}
 			fn := p.funcs[fc.Name]
 			if fn == nil {
-				return fmt.Errorf("%s:%d: contract for unknown function %s", f, fc.Line, fc.Name)
+				// the function under contract disappeared: a failed shape obligation, not a tool error
+				p.missing = append(p.missing, fc)
+				continue
 			}
 			fc.Fn = fn
 			if fc.Pkg == nil && fn.Pkg != nil {
